@@ -51,7 +51,8 @@ def __iter__(self):
         yield self[index]
 '''
 
-# holes: 1 sortedness test on one difference, 2 range test, 3 jump test, 4 dense-selection test
+# holes: 1 sortedness test on one difference, 2 range test, 3 jump test, 4 dense-selection test,
+# 20 the post-selection offsets of the dense strategy (`dim_keep - dim_keep[0]`; an in-place form is recognised and reported)
 LAZY_GETITEM = '''
 def __getitem__(self, keep):
     ndim = len(self.dataset.shape)
@@ -86,7 +87,7 @@ def __getitem__(self, keep):
             last = dim_keep[jumps].tolist() + [dim_keep[-1]]
             segments = np.c_[first, np.array(last) + 1]
             if __H4__:
-                selection.append([(slice(segments[0, 0], segments[-1, 1], 1), dim_keep - dim_keep[0], slice(0, len(dim_keep), 1))])
+                selection.append([(slice(segments[0, 0], segments[-1, 1], 1), __H20__, slice(0, len(dim_keep), 1))])
                 segment_sizes.append([len(dim_keep)])
             else:
                 segm_sizes = [end - start for start, end in segments]
